@@ -977,8 +977,10 @@ caption_command(vbi_decoder *vbi, struct caption *cc,
 		if (c2 & 0x10) {
 			col = ch->col;
 
+			/* 47 CFR 15.119 (e)(1): The indent moves the cursor,
+			   it does not erase. */
 			for (i = (c2 & 14) * 2; i > 0 && col < COLUMNS - 1; i--)
-				ch->line[col++] = cc->transp_space[chan >> 2];
+				col++;
 
 			if (col > ch->col)
 				ch->col = ch->col1 = col;
@@ -1275,8 +1277,10 @@ caption_command(vbi_decoder *vbi, struct caption *cc,
 // not verified
 			col = ch->col;
 
+			/* 47 CFR 15.119 (e)(1)(ii): Tab offsets move the
+			   cursor, they do not erase. */
 			for (i = c2 & 3; i > 0 && col < COLUMNS - 1; i--)
-				ch->line[col++] = cc->transp_space[chan >> 2];
+				col++;
 
 			if (col > ch->col)
 				ch->col = ch->col1 = col;
